@@ -50,7 +50,7 @@ contract("usim._core.loop.Activation.__bool__",
 model("WaitQueue", module="usim._core.waitq", fields={},
       ghost={"qlen": MAP(REAL, INT), "qitems": MAP(REAL, MAP(INT, ACT))})
 
-abstract_contract("WaitQueue", "push", ["key", "item"],
+abstract_contract("WaitQueue", "push", ["key", "item"], allocates=False,
                   params={"self": REF("WaitQueue"), "key": REAL, "item": ACT},
                   ensures=["self.qlen == store(old(self.qlen), key, old(self.qlen)[key] + 1)",
                            "self.qitems == store(old(self.qitems), key, store(old(self.qitems)[key], old(self.qlen)[key], item))"],
@@ -59,7 +59,7 @@ abstract_contract("WaitQueue", "push", ["key", "item"],
 
 SCHED_PARAMS = {"self": REF("Loop"), "target": ANY, "signal": OPT(REF("Interrupt")), "delay": OPT(REAL), "at": OPT(REAL)}
 
-contract("usim._core.loop.Loop.schedule",
+contract("usim._core.loop.Loop.schedule", allocates=False,
          params=SCHED_PARAMS,
          asserts={1: "usage", 2: "usage", 3: "usage"},
          requires=["self is loop", "target is not None",
